@@ -59,6 +59,136 @@ theorem C08_wallet_dryrun_keeps_disk (s : State) (op : Op) (h : op.isDryRun = tr
               · split <;> rfl
   | _ => simp [Op.isDryRun] at h
 
+theorem issue1_err_disk (s : State) (t : Tx) (sc a i ab) (h : (issue1 s t sc a i ab).2.isErr = true) :
+    (issue1 s t sc a i ab).1.disk = s.disk := by
+  cases ab with
+  | some res => exact issue1_abort_disk s t sc a i res
+  | none =>
+    unfold issue1 at h ⊢
+    simp only [] at h ⊢
+    cases hr : (issue t sc a i 1).2 with
+    | error e => rfl
+    | ok l =>
+      cases l with
+      | nil => rfl
+      | cons ad rest => rw [hr] at h; simp [Res.isErr] at h
+
+theorem stepCreateTx_err_disk (s : State) (sc a dry huge nf) (h : (stepCreateTx s sc a dry huge nf).2.isErr = true) :
+    (stepCreateTx s sc a dry huge nf).1.disk = s.disk := by
+  unfold stepCreateTx at h ⊢
+  by_cases hl : s.mem.locked = true
+  · rw [if_pos hl]
+  · rw [if_neg hl] at h ⊢
+    simp only [] at h ⊢
+    cases hld : (loadAcct s.disk s.mem sc a).1 with
+    | none => rfl
+    | some r =>
+      rw [hld] at h
+      simp only [] at h ⊢
+      by_cases hh : (huge || !(scanFunded s.disk sc a s.disk.funded (loadAcct s.disk s.mem sc a).2).1) = true
+      · rw [if_pos hh]
+      · rw [if_neg hh] at h ⊢
+        exact issue1_err_disk s _ sc a true _ h
+
+/-- **A request that fails (returns an error) never changes the database image** — insufficient funds, unknown
+account, locked wallet, refused xpub, duplicate or empty name, too many addresses, a failing backend notification
+inside CreateSimpleTx: whatever was written in the transaction is rolled back. -/
+theorem C08_wallet_failed_keeps_disk (s : State) (op : Op) (h : (step s op).2.isErr = true) :
+    (step s op).1.disk = s.disk := by
+  cases op with
+  | newAddr sc a i => exact issue1_err_disk s _ sc a i none h
+  | curAddr sc a =>
+    simp only [step, stepCurAddr] at h ⊢
+    cases hld : (loadAcct s.disk s.mem sc a).1 with
+    | none => rfl
+    | some r =>
+      rw [hld] at h
+      simp only [] at h ⊢
+      split
+      · rename_i h0; simp only [h0, if_true] at h; exact issue1_err_disk _ _ sc a false none h
+      · rename_i h0
+        simp only [h0, if_false] at h
+        split
+        · rename_i h1; simp only [h1, if_true] at h; exact issue1_err_disk _ _ sc a false none h
+        · rfl
+  | fund sc a =>
+    simp only [step, stepFund] at h ⊢
+    cases hr : (stepNewAddr s sc a false).2 with
+    | addr ad => rw [hr] at h; simp [Res.isErr] at h
+    | err e => simp only []; exact issue1_err_disk s _ sc a false none (by rw [stepNewAddr] at hr; rw [hr]; rfl)
+    | ok => rw [hr] at h; simp only [] at h; rw [hr] at h; simp [Res.isErr] at h
+    | acct n => rw [hr] at h; simp only [] at h; rw [hr] at h; simp [Res.isErr] at h
+    | imported n r e i => rw [hr] at h; simp only [] at h; rw [hr] at h; simp [Res.isErr] at h
+  | createTx sc a dry huge nf => exact stepCreateTx_err_disk s sc a dry huge nf h
+  | fundPsbt sc a c =>
+    cases c with
+    | none => exact stepCreateTx_err_disk s sc a false false false h
+    | some i =>
+      simp only [step, stepFundPsbt] at h ⊢
+      cases hc : s.disk.funded[i]? with
+      | none => rfl
+      | some c =>
+        rw [hc] at h
+        simp only [] at h ⊢
+        cases hld : (loadAcct s.disk (lookupAddr s.disk s.mem c.1 c.2).2 sc a).1 with
+        | none => rfl
+        | some r => rw [hld] at h; exact issue1_err_disk s _ sc a true none h
+  | importAcct dry sc nm key n =>
+    cases dry with
+    | true => exact C08_wallet_dryrun_keeps_disk s _ rfl
+    | false =>
+      simp only [step, stepImport] at h ⊢
+      split
+      · rfl
+      · rename_i h0
+        simp only [h0, if_false] at h
+        split
+        · rfl
+        · rename_i h1
+          simp only [h1, if_false] at h
+          split
+          · rfl
+          · rename_i h2
+            simp only [h2, if_false] at h
+            split
+            · rfl
+            · rename_i r hld
+              rw [hld] at h
+              simp [Res.isErr] at h
+  | rename sc a nm =>
+    simp only [step, stepRename] at h ⊢
+    split
+    · rfl
+    · rename_i h0
+      simp only [h0, if_false] at h
+      split
+      · rfl
+      · rename_i h1
+        simp only [h1, if_false] at h
+        split
+        · rfl
+        · rename_i r hrow; rw [hrow] at h; simp [Res.isErr] at h
+  | newAcct sc nm =>
+    simp only [step, stepNewAcct] at h ⊢
+    split
+    · rfl
+    · rename_i h0
+      simp only [h0, if_false] at h
+      split
+      · rfl
+      · rename_i h1
+        simp only [h1, if_false] at h
+        split
+        · rfl
+        · rename_i h2; simp only [h2, if_false] at h; simp [Res.isErr] at h
+  | lock => rfl
+  | unlock =>
+    simp only [step, stepUnlock]
+    split
+    · rfl
+    · split <;> rfl
+  | cmp scs us => rfl
+
 /-! ## 2. the coherence invariant holds after every history -/
 
 /-- For EVERY history of wallet requests (dry runs, failing requests and committed ones in any order) the account
